@@ -76,6 +76,18 @@ func lockKind(call *ast.CallExpr) string {
 	return ""
 }
 
+// simpleChain: an identifier or a chain of field selectors on one - such an
+// expression is addressable (no calls, no map or slice indexing in it).
+func simpleChain(e ast.Expr) bool {
+	switch x := e.(type) {
+	case *ast.Ident:
+		return true
+	case *ast.SelectorExpr:
+		return simpleChain(x.X)
+	}
+	return false
+}
+
 func hookCall(fn string, args ...string) *ast.CallExpr {
 	var a []ast.Expr
 	for _, s := range args {
@@ -95,6 +107,7 @@ func rewrite(path, rel string) (int, error) {
 		return 0, err
 	}
 	count := 0
+	generated := map[*ast.BlockStmt]bool{} // blocks this tool made: not to be rewritten again
 	var doList func(list []ast.Stmt) []ast.Stmt
 	doList = func(list []ast.Stmt) []ast.Stmt {
 		out := make([]ast.Stmt, 0, len(list))
@@ -106,7 +119,23 @@ func rewrite(path, rel string) (int, error) {
 					switch lockKind(call) {
 					case "lock":
 						count++
-						out = append(out, &ast.ExprStmt{X: hookCall("Yield", "lock", site)}, st, &ast.ExprStmt{X: hookCall("Acquire")})
+						sel := call.Fun.(*ast.SelectorExpr)
+						lockStmt := st
+						if simpleChain(sel.X) {
+							// if !verifhook.SimLock(&x, write, site) { x.Lock() }: a simulator that
+							// simulates blocking takes the lock itself (cooperatively)
+							write := "true"
+							if sel.Sel.Name == "RLock" {
+								write = "false"
+							}
+							sim := &ast.CallExpr{Fun: &ast.SelectorExpr{X: ast.NewIdent("verifhook"), Sel: ast.NewIdent("SimLock")},
+								Args: []ast.Expr{&ast.UnaryExpr{Op: token.AND, X: sel.X}, ast.NewIdent(write),
+									&ast.BasicLit{Kind: token.STRING, Value: strconv.Quote(site)}}}
+							body := &ast.BlockStmt{List: []ast.Stmt{st}}
+							generated[body] = true
+							lockStmt = &ast.IfStmt{Cond: &ast.UnaryExpr{Op: token.NOT, X: sim}, Body: body}
+						}
+						out = append(out, &ast.ExprStmt{X: hookCall("Yield", "lock", site)}, lockStmt, &ast.ExprStmt{X: hookCall("Acquire")})
 						continue
 					case "unlock":
 						count++
@@ -168,7 +197,9 @@ func rewrite(path, rel string) (int, error) {
 	ast.Inspect(f, func(n ast.Node) bool {
 		switch b := n.(type) {
 		case *ast.BlockStmt:
-			b.List = doList(b.List)
+			if !generated[b] {
+				b.List = doList(b.List)
+			}
 		case *ast.CaseClause:
 			b.Body = doList(b.Body)
 		case *ast.CommClause:
